@@ -198,7 +198,7 @@ META["C06"] = {
 
 META["C08"] = {
     "title": "Time and async sources emit exactly what and when they promise",
-    "rule": "cases = (source, take count, local|threads scheduler form, FIFO|any task order, due-stepping|late schedule, schedule seed). Sources: interval / interval_at with periods {1,7,100} ms and instants {past, now, +10ms, +250ms, +1h}; timer / timer_at with delays {0,1,7,100} ms and the same instants; from_future(_result) / from_stream(_result) over scripted futures/streams (ready at once, pending k polls self-woken or woken by the explorer, error at position i, empty). Due-stepping runs fire one due timer at a time and run tasks to quiescence (exact 'one period' oracle); late runs leave tasks waiting and jump the clock ('never earlier' oracle). A third of the timed cases (counter runs_with_idle_gap_before_first_poll) move the clock by {period/2, period-1ns, period, 3 periods+1ns, 3 ms} between subscribe() and the executor's first run, then due-step: the first interval / interval_at value is still due at max(subscription + period | the instant, first run). One stream case in six is long (20..100 items, all ready at once or with a rare pending; counter long_stream_runs). A third of the timer cases use sub-millisecond delays (400, 900, 999, 1500 us). Non-trivial: >= 2 ticks observed, or the future/stream was pending at least once; distinct = hash(case). A share of the cases (counter runs_on_the_real_LocalPool) is built with the library's own `impl Scheduler for futures::executor::LocalSpawner` and run on the real futures LocalPool (run_until_stalled / try_run_one) instead of the harness executor. Thread part (scenario interval+workers): interval(1ms).take(k) with 1-2 worker threads running the periodic task and firing the virtual timers, optionally an unsubscribing thread (random/PCT, preemption-bounded systematic, free-running): values 0,1,2,... in order each once; without an unsubscribe exactly k values then completion once the workers ran until idle. Real-clock part (crate rtimer/, the library built with its DEFAULT features so that the built-in timer behind the `timer` feature - which the virtual-clock build never compiles - is the one under test; counters real_timer_cases, real_clock_lower_bounds_checked, real_clock_due_after_idle_cases): timer / timer_at / interval / interval_at / delay / delay_at / delay_subscription / debounce on LocalPool and on a 2-thread ThreadPool with waits from a grid of sub-millisecond and fractional-millisecond durations (0, 50, 100, 400, 499, 500, 501, 999 us, 1, 1.001, 1.4, 1.499, 1.5, 2.4, 2.499, 4.167 ms) plus seeded ones below 3 ms; oracles that machine load cannot falsify: an observation instant taken inside the callback is never earlier than (an instant taken before the call that starts the wait) + the wait; consecutive ticks are at least one period apart and numbered 0,1,2,3 (period 0 included); and, after the thread has slept past subscription + first wait of an interval / interval_at with the executor idle, one run_until_stalled() delivers the first tick (the first wait starts at subscription).",
+    "rule": "cases = (source, take count, local|threads scheduler form, FIFO|any task order, due-stepping|late schedule, schedule seed). Sources: interval / interval_at with periods {1,7,100} ms and instants {past, now, +10ms, +250ms, +1h}; timer / timer_at with delays {0,1,7,100} ms and the same instants; from_future(_result) / from_stream(_result) over scripted futures/streams (ready at once, pending k polls self-woken or woken by the explorer, error at position i, empty). Due-stepping runs fire one due timer at a time and run tasks to quiescence (exact 'one period' oracle); late runs leave tasks waiting and jump the clock ('never earlier' oracle). A third of the timed cases (counter runs_with_idle_gap_before_first_poll) move the clock by {period/2, period-1ns, period, 3 periods+1ns, 3 ms} between subscribe() and the executor's first run, then due-step: the first interval / interval_at value is still due at max(subscription + period | the instant, first run). One stream case in six is long (20..100 items, all ready at once or with a rare pending; counter long_stream_runs). A third of the timer cases use sub-millisecond delays (400, 900, 999, 1500 us). Non-trivial: >= 2 ticks observed, or the future/stream was pending at least once; distinct = hash(case). A share of the cases (counter runs_on_the_real_LocalPool) is built with the library's own `impl Scheduler for futures::executor::LocalSpawner` and run on the real futures LocalPool (run_until_stalled / try_run_one) instead of the harness executor. Thread part (scenario interval+workers): interval(1ms).take(k) with 1-2 worker threads running the periodic task and firing the virtual timers, optionally an unsubscribing thread (random/PCT, preemption-bounded systematic, free-running): values 0,1,2,... in order each once; without an unsubscribe exactly k values then completion once the workers ran until idle. Real-clock part (crate rtimer/, the library built with its DEFAULT features so that the built-in timer behind the `timer` feature - which the virtual-clock build never compiles - is the one under test; counters real_timer_cases, real_clock_lower_bounds_checked, real_clock_due_after_idle_cases): timer / timer_at / interval / interval_at / delay / delay_at / delay_subscription / debounce on LocalPool and on a 2-thread ThreadPool with waits from a grid of sub-millisecond and fractional-millisecond durations (0, 50, 100, 400, 499, 500, 501, 999 us, 1, 1.001, 1.4, 1.499, 1.5, 2.4, 2.499, 4.167 ms) plus seeded ones below 3 ms; oracles that machine load cannot falsify: an observation instant taken inside the callback is never earlier than (an instant taken before the call that starts the wait) + the wait; consecutive ticks are at least one period apart and numbered 0,1,2,3 (period 0 included); and, after the thread has slept past subscription + first wait of an interval / interval_at with the executor idle, one run_until_stalled() delivers the first tick (the first wait starts at subscription). The _at forms (interval_at, timer_at, delay_at) are also built first and subscribed 1-2.5 ms of real time later (counter real_clock_at_forms_built_before_they_are_subscribed): whatever they do with the time that passed, nothing comes before the given instant.",
     "assumptions": COMMON_ASSUME + [
         "the _at forms read the real Instant::now(): the instant is placed relative to the case's start and the real time the case took (plus 1 ms) is the tolerance on 'never earlier'; 'exactly' is only demanded of due-stepping runs on the virtual clock",
         "for an instant that has already passed ('at the given instant' cannot be met any more) the first interval_at value is due at once, i.e. at the executor's first run",
